@@ -123,11 +123,6 @@ UNITS = [
          "same on 'ax\\n\\nc' (blank line, unterminated last line)",
          ["SummarySink::matched", "util::find_iter_at_in_context"], timeout=1500, heavy=True, rules=printer_rules(), unwind=12,
          shape=SH.from_bytes("p_ax_c", b"ax\n\nc")),
-    unit("c10_json_submatches", ["C10"], PRINTER, "json::verif_kani",
-         "real searcher + real JSONSink (serde_json into a discarding writer) on 'ax\\nby\\n' with a symbolic per-line span table: "
-         "sum of submatch counts of the match messages (stats.matches) == matches inside the reported lines; one message per reported line",
-         ["JSONSink::matched", "JSONSink::record_matches", "JSONSink::begin", "JSONSink::finish", "util::find_iter_at_in_context",
-          "SliceByLine::run"], timeout=1500, heavy=True, rules=printer_rules(), unwind=12, shape=SH.from_bytes("p_axby", b"ax\nby\n"), tier="thorough"),
     unit("c02_linebuffer_stream_cap1", ["C02"], SEARCHER, "line_buffer::verif_kani",
          "LineBuffer fill/consume/roll/grow over a FULLY SYMBOLIC <=4-byte source, symbolic read sizes 1..=2, initial capacity "
          "1 / 3 (eager growth): the exposed stream is exactly the source (no byte lost, duplicated, reordered), final offset = length",
@@ -300,7 +295,8 @@ class ShapeFamily:
                            timeout=self.timeout, fn=self.fn, shape=sh, unwind=self.unwind(sh),
                            genfile=self.genfile, interesting=self.interesting,
                            desc=self.desc + " [shape %s = %r]" % (sh.name, sh.descr()),
-                           functions=self.functions, rules=self.rules, bucket=nl_bucket(sh), heavy=self.heavy))
+                           functions=self.functions, rules=self.rules, bucket=nl_bucket(sh),
+                           heavy=(self.heavy(sh) if callable(self.heavy) else self.heavy)))
         return out
 
 
@@ -468,14 +464,26 @@ FAMILIES = [
     ShapeFamily("c13_multiline", ["C13"], SEARCHER, CORE_MOD, GEN,
                 "MultiLine::run == lines covered by the successive matches of a span table (merged runs, contexts, invert, "
                 "passthru, numbering); EVERY span table of the shape (<=3 bytes) / every table with <=2 match starts (4-5 bytes) "
-                "x 5 configurations enumerated in-harness; line numbering symbolic",
-                MULTI_FUNCS, heavy=True, timeout=1500, rules=multi_rules(2), unwind=lambda sh: 800,
-                quick_shapes=["q_empty", "q_one_unterm", "q_one", "q_blank", "m_two_unterm", "q_two"], thorough_shapes=["m_blank_mid", "m_three"]),
+                "x {no context, (A,B)=(1,1)} enumerated in-harness; line numbering symbolic",
+                MULTI_FUNCS, heavy=lambda sh: len(sh.hay) >= 3, timeout=1500, rules=multi_rules(2), unwind=lambda sh: 800,
+                quick_shapes=["q_one_unterm", "q_one", "q_blank", "m_two_unterm", "q_two"], thorough_shapes=["m_blank_mid", "m_three"]),
+    ShapeFamily("c13_multiline_inv", ["C13"], SEARCHER, CORE_MOD, GEN,
+                "MultiLine::run == lines covered by the successive matches of a span table (merged runs, contexts, invert, "
+                "passthru, numbering); EVERY span table of the shape (<=3 bytes) / every table with <=2 match starts (4-5 bytes) "
+                "INVERTED, x {no context, (A,B)=(1,1)} enumerated in-harness; line numbering symbolic",
+                MULTI_FUNCS, heavy=lambda sh: len(sh.hay) >= 3, timeout=1500, rules=multi_rules(2), unwind=lambda sh: 800,
+                quick_shapes=["q_one_unterm", "q_one", "q_blank", "m_two_unterm"], thorough_shapes=["q_two", "m_blank_mid", "m_three"]),
+    ShapeFamily("c13_multiline_passthru", ["C13"], SEARCHER, CORE_MOD, GEN,
+                "MultiLine::run == lines covered by the successive matches of a span table (merged runs, contexts, invert, "
+                "passthru, numbering); EVERY span table of the shape (<=3 bytes) / every table with <=2 match starts (4-5 bytes) "
+                "with passthru, enumerated in-harness; line numbering symbolic",
+                MULTI_FUNCS, heavy=lambda sh: len(sh.hay) >= 3, timeout=1500, rules=multi_rules(2), unwind=lambda sh: 800,
+                quick_shapes=["q_one_unterm", "q_one", "q_blank", "m_two_unterm"], thorough_shapes=["q_two", "m_blank_mid", "m_three"]),
     ShapeFamily("c13_multiline_lookbehind", ["C13"], SEARCHER, CORE_MOD, GEN,
                 "MultiLine::run with look-behind patterns: besides the span table E, every alternative answer E0[p] at a "
-                "resumption point taken as start-of-haystack is enumerated; the result must follow the whole-input table E",
-                MULTI_FUNCS, heavy=True, timeout=1500, rules=multi_rules(2), unwind=lambda sh: 800,
-                quick_shapes=["q_one_unterm", "q_one", "m_two_unterm", "q_two"], thorough_shapes=[]),
+                "resumption point taken as start-of-haystack is enumerated (tables with one match start; plain and inverted+context); the result must follow the whole-input table E",
+                MULTI_FUNCS, heavy=lambda sh: len(sh.hay) >= 4, timeout=1500, rules=multi_rules(2), unwind=lambda sh: 800,
+                quick_shapes=["q_one_unterm", "q_one", "m_two_unterm"], thorough_shapes=["q_two"]),
     ShapeFamily("c16_multiline_refuse", ["C16"], SEARCHER, CORE_MOD, GEN,
                 "multi-line strategy: sink refuses at every call index k (enumerated) for every span table (<=2 bytes) / every table with one match start, x {contexts (1,1), inverted, passthru}: prefix + exactly one finish",
                 MULTI_FUNCS, heavy=True, timeout=1500, rules=multi_rules(2), unwind=lambda sh: 800,
@@ -600,7 +608,7 @@ def run_kani(group, ctx):
             lanes[key[2]].append(prepare(key, obls))
         both = bool(lanes[False]) and bool(lanes[True])
         J = ctx["jobs"]
-        lane_jobs = {False: (max(2, J - 4) if both else J), True: (min(3, J) if both else min(4, J))}
+        lane_jobs = {False: (max(2, J - 4) if both else J), True: min(4, J)}
         done = []
         stop_guard = threading.Event()
 
@@ -652,6 +660,7 @@ def run_kani(group, ctx):
             t.join()
         stop_guard.set()
         # results and (sequential) playbacks
+        n_reproduced = 0
         for crate, obls, res, cbmc_args, unwindset_used in done:
             for o in obls:
                 hr = res[o.harness]
@@ -673,12 +682,20 @@ def run_kani(group, ctx):
                 r["failed_checks"] = hr.failed[:8]
                 if hr.status == K.FAIL and F.match(F.load(), ctx["prop"], r) is not None:
                     K.log("FAILED (matches a known finding, no replay needed)", o.name)
+                elif hr.status == K.FAIL and n_reproduced >= 3:
+                    # each replay costs minutes; three natively reproduced
+                    # violations decide the run (exit 1), the rest is listed unreplayed
+                    K.log("FAILED", o.name, hr.failed[:3], "(not replayed: 3 violations of this run already reproduced)")
+                    r["reproduced"] = None
+                    r["reason"] = "assertion(s) failed; not replayed (replay cap of 3 per run reached)"
                 elif hr.status == K.FAIL:
                     K.log("FAILED", o.name, hr.failed[:3], "-> concrete playback")
                     pb = sc.playback(crate, o.harness, harness_timeout=max(600, 2 * o.timeout),
                                      cbmc_args=cbmc_args)
                     r["playback"] = pb
                     r["reproduced"] = pb.get("reproduced")
+                    if pb.get("reproduced") is True:
+                        n_reproduced += 1
                 results.append(r)
     return results
 
